@@ -1,6 +1,6 @@
 """C13 (copy/assignment are deep) and C14 (property registry) - ownership, flag-synchronisation and protocol rules"""
 from .extract import AnalysisBroken
-from .facts import as_assign, estr, unwrap, walk
+from .facts import as_assign, estr, need_names, unwrap, walk
 from .rule_g import iter_sites
 
 TK = "OpenVolumeMesh::TopologyKernel"
@@ -189,6 +189,7 @@ def run_c14(ck, fb, fbd):
     ck.floor("internal_find_property_instantiations", len(fs), 20)
     bad_empty = bad_match = 0
     for f in fs:
+        need_names(f, ["_name", "type_name", "prop"], None, "C14.find")
         rets = [(b, i, x) for b, i, x in f.tops() if x.get("k") == "ret" and b in f.reach()]
         pos_ret = [(b, i, x) for b, i, x in rets if "prop_ptr_from_storage" in estr(x)]
         ok_empty = False
@@ -218,6 +219,7 @@ def run_c14(ck, fb, fbd):
             raise AnalysisBroken("no instantiation of ResourceManager::" + name)
         bad = 0
         for f in fs2:
+            need_names(f, ["prop"], None, "C14.create")
             creates = [(b, i, x) for b, i, x in f.nodes(("call",)) if x.get("pn", "").endswith("::internal_create_property")]
             for b, i, x in creates:
                 facts = [(estr(c), pol) for c, pol, e in f.facts(b)]
@@ -232,6 +234,7 @@ def run_c14(ck, fb, fbd):
     fs2 = insts("request_property")
     bad = 0
     for f in fs2:
+        need_names(f, ["prop", "_name"], None, "C14.create")
         creates = [(b, i, x) for b, i, x in f.nodes(("call",)) if x.get("pn", "").endswith("::internal_create_property")]
         for b, i, x in creates:
             facts = [(estr(c), pol) for c, pol, e in f.facts(b)]
@@ -257,6 +260,7 @@ def run_c14(ck, fb, fbd):
             raise AnalysisBroken("no instantiation of ResourceManager::" + name)
         bad_guard = bad_n = bad_flag = 0
         for f in fs2:
+            need_names(f, ["_enable"] + (["existing"] if name == "set_shared" else []), None, "C14.transition")
             throws = [(b, i, x) for b, i, x in f.nodes(("throw",)) if b in f.reach()]
             effects_pos = []
             for b, i, x in f.nodes(("call",)):
